@@ -113,6 +113,10 @@ func cmdDiscovery(args []string) error {
 		classes = append(classes, c)
 	}
 	sort.Strings(classes)
+	if p := os.Getenv("VERIFH_PERM"); p != "" { // another order of first contact with each capability set (fresh process)
+		ps, _ := strconv.ParseInt(p, 10, 64)
+		rand.New(rand.NewSource(ps)).Shuffle(len(classes), func(a, b int) { classes[a], classes[b] = classes[b], classes[a] })
+	}
 	f, err := os.Create(args[5])
 	if err != nil {
 		return err
